@@ -46,6 +46,11 @@ MUTATORS = {"append", "extend", "insert", "pop", "remove", "clear", "sort", "rev
 ARITH_UFUNCS = {"numpy.multiply": ast.Mult, "numpy.add": ast.Add, "numpy.subtract": ast.Sub, "numpy.matmul": ast.MatMult, "numpy.divide": ast.Div, "numpy.true_divide": ast.Div}
 
 
+def private_class(func):
+    """a method (dunder methods included) of a class whose name starts with an underscore: internal working state, expanded like a private helper"""
+    return bool(getattr(func, "cls", None)) and func.cls.startswith("_") and not func.cls.startswith("__")
+
+
 def is_const(t, *vals):
     return isinstance(t, tuple) and len(t) == 2 and t[0] == "const" and (not vals or any(t[1] == v and type(t[1]) == type(v) for v in vals))
 
@@ -206,7 +211,7 @@ class Sym(Interp):
         # default policy: private helpers (`_name`, functions and methods) are expanded at their call sites - extracting a helper
         # must not hide what a function computes - except the two private functions of today's tree that the rules treat as units
         # of their own (analysed where they are defined, referred to by name at their call sites)
-        self.inline = inline or (lambda func: func.name.startswith("_") and not func.name.startswith("__") and func.qname not in UNIT_HELPERS)
+        self.inline = inline or (lambda func: ((func.name.startswith("_") and not func.name.startswith("__")) or private_class(func)) and func.qname not in UNIT_HELPERS)
         self.facts = []
         self._order = 0
         self.loopinfo = {}
@@ -268,6 +273,10 @@ class Sym(Interp):
             # (x if c else (y, 0))[k]: the index goes into both alternatives - a display is taken apart, an opaque value indexed
             return self.mkphi(b[1], T(self.h_subscript(b[2], idx, n, env, ctx)), T(self.h_subscript(b[3], idx, n, env, ctx)))
         ti = T(idx)
+        if b[0] == "dict" and is_const(ti) and all(is_const(k_) and k_[1] != "**" for k_, _ in b[1]):
+            hits = [v_ for k_, v_ in b[1] if k_[1] == ti[1] and type(k_[1]) == type(ti[1])]
+            if hits:
+                return hits[-1]                   # {'shift': a, 'do': b}['do'] is b: a display with literal keys, read by a literal key
         if isinstance(ti, tuple) and len(ti) == 4 and ti[0] == "ext" and ti[1] == "slice" and 1 <= len(ti[2]) <= 3 and not ti[3]:
             a_ = list(ti[2])                                  # x[slice(a, b)] is x[a:b]
             a_ = [NONE, a_[0], NONE] if len(a_) == 1 else (a_ + [NONE] if len(a_) == 2 else a_)
@@ -472,6 +481,8 @@ class Sym(Interp):
             return self.h_call_method(args[0], nm, n, list(args[1:]), dict(kwargs), env, ctx)
         if d == "numpy.transpose" and len(args) == 1 and not kwargs and not (isinstance(args[0], tuple) and args[0] and args[0][0] in ("*", "list", "tuple", "comp", "const")):
             return ("attr", T(args[0]), "T")
+        if d == "iter" and len(args) == 1 and not kwargs:
+            return args[0]                      # iter(x) in a for statement (an __iter__ that delegates): iterating it is iterating x
         if d in ARITH_UFUNCS and len(args) == 2 and not kwargs and not any(isinstance(a, tuple) and a and a[0] == "*" for a in args):
             return self.h_binop(ARITH_UFUNCS[d](), args[0], args[1], n, ctx)       # np.multiply(a, b) is a * b
         if d == "numpy.identity" and len(args) == 1 and not (set(kwargs) - {"dtype"}):
@@ -712,8 +723,8 @@ class Sym(Interp):
         items = []
         for v, node, env in rets:
             p_ = tuple((env.get("$path", ()) or ())[base:])
-            if isinstance(v, GENERIC_VALUES) and not isinstance(v, TupleV):
-                return None
+            if isinstance(v, GENERIC_VALUES) and not isinstance(v, (TupleV, FuncRef, ExtRef, ClassRef, Closure)):
+                return None                 # objects keep their identity; functions and classes are values like any other
             items.append((p_, T(v) if not isinstance(v, TupleV) else T(v)))
 
         def build(group, depth):
@@ -848,6 +859,14 @@ class Sym(Interp):
                 and any(isinstance(e_, (ast.Tuple, ast.List)) for e_ in s.iter.elts):
             # for (x, flag) in ((a, False), (b, True)): a loop over a literal display of records is the sequence of its bodies
             return self._unrolled(s, [self.ev(e_, env, ctx) for e_ in s.iter.elts], env, ctx)
+        if is_for and isinstance(s.iter, ast.Name):
+            # the same with the display bound to a name first (a local `stages = ((a, f), (b, g))`, a module-level dispatch table)
+            try:
+                tv_ = self.ev(s.iter, env, ctx)
+            except Inconclusive:
+                tv_ = None
+            if isinstance(tv_, TupleV) and tv_.kind != ARGS and 0 < len(tv_.items) <= 8 and all(isinstance(x_, TupleV) for x_ in tv_.items):
+                return self._unrolled(s, list(tv_.items), env, ctx)
         if is_for and self.static_rooted(s.iter, env, ctx):
             itv0 = self.ev(s.iter, env, ctx)
             if isinstance(itv0, KwV):
